@@ -531,8 +531,11 @@ def prop_result(case):
     from glotaran.io import save_result
     from glotaran.optimization.optimize import optimize
 
+    from vlib import env
+
     scheme = build_result_scheme(case)
-    with sandbox() as td:
+    hostile = env.hostile_for(case)
+    with sandbox() as td, env.hostile_environment(hostile):
         if case.get("scheme_from_file"):
             from glotaran.io import load_scheme
             from glotaran.io import save_dataset
@@ -602,7 +605,7 @@ def prop_result(case):
         n_hist = len(result.optimization_history.data)
     tags = [case["kind"], f"datasets-{case['n_datasets']}", f"weights-{case['weights']}", f"filter-{'none' if flt is None else '+'.join(flt)}",
             f"params-{case['options']['parameter_format']}", f"report-{case['options']['report']}", f"target-{case['target']}-{case['path_kind']}",
-            "presaved" if case["presaved"] else "fresh", "init-stderr" if case.get("init_stderr") else "init-no-stderr", "scheme-loaded-from-file" if case.get("scheme_from_file") else "scheme-in-memory", "history-empty" if n_hist == 0 else "history-nonempty"]
+            "presaved" if case["presaved"] else "fresh", "init-stderr" if case.get("init_stderr") else "init-no-stderr", "scheme-loaded-from-file" if case.get("scheme_from_file") else "scheme-in-memory", *(["changed_print_and_display_options"] if hostile else []), "history-empty" if n_hist == 0 else "history-nonempty"]
     return {"nontrivial": case["n_datasets"] >= 2 and case["weights"] != "none", "tags": tags}
 
 
@@ -968,7 +971,10 @@ def prop_ascii(case):
     sfx = "_dims_swapped" if swapped else ""
     obj = da if case["input"] == "dataarray" else da.to_dataset(name="data")
     fmt = DataFileType[case["format"]]
-    with sandbox() as td:
+    from vlib import env
+
+    hostile = env.hostile_for(case)
+    with sandbox() as td, env.hostile_environment(hostile):
         path = td / "d.ascii"
         kwargs = {"comment": case["comment"]} if case["comment"] else {}
         with expect_ok("ascii.save" + sfx):
@@ -992,7 +998,7 @@ def prop_ascii(case):
               lambda: f"{secondary} axis written {want.tolist()} read back {have.tolist()} (dtype {have.dtype})")
         check(got.shape == y.shape, "ascii.orientation" + sfx, lambda: f"shape (time, spectral) {got.shape} vs {y.shape}")
         check(arrays_close(y, got.values, RTOL_ASCII), "ascii.values" + sfx, lambda: f"max rel. deviation {np.nanmax(np.abs(got.values - y) / np.maximum(np.abs(y), 1e-300)):.3e}")
-    return {"nontrivial": t.size != s.size, "tags": [case["format"], case["dims_order"], f"time-{case['time']['kind']}", f"spectral-{case['spectral']['kind']}", "prepare" if case["prepare"] else "raw", f"data_{dt}"]}
+    return {"nontrivial": t.size != s.size, "tags": [case["format"], case["dims_order"], f"time-{case['time']['kind']}", f"spectral-{case['spectral']['kind']}", "prepare" if case["prepare"] else "raw", f"data_{dt}"] + (["changed_print_and_display_options"] if hostile else [])}
 
 
 # ------------------------------------------------------------------------------------------------
